@@ -53,6 +53,9 @@ ASSUMPTIONS = ["identity values are compared as exact fractions matches/length (
 NUC = "ACGT"
 PROT = "ACDEFGHIKLMNPQRSTVWYBZX*"
 GEN = "abcdefg"
+AMB = "ACGTRYWSMKHBVDN"
+PROT20 = "ACDEFGHIKLMNPQRSTVWY"
+GAPCHARS = "._*~"
 
 
 # ---------------------------------------------------------------- translator (Gen)
@@ -452,8 +455,56 @@ def big_cases(rng, n_cases):
         yield {"kind": "bigalph/" + style, "ops": ops, "codes": seqs, "trace": cols, "valid": True}
 
 
+MIXED = [(NUC, AMB), (AMB, NUC), (PROT, NUC), (NUC, PROT), (GEN, "xyz"), ("xyz", GEN), (AMB, PROT), ("pq", NUC, GEN), (NUC, AMB, PROT)]
+
+
+def mixed_cases(rng, n_cases):
+    """rows over *different* alphabets (unambiguous read vs ambiguous reference, protein over nucleotide, custom sizes)"""
+    for _ in range(n_cases):
+        alphs = list(rng.choice(MIXED))
+        n = len(alphs)
+        style = rng.choice(["global", "local"])
+        if n == 2 and rng.random() < 0.5:
+            cols, lens = _rand_pair_trace(rng, style)
+        else:
+            cols, lens, _ = _rand_trace(rng, n, style)
+        strs = []
+        for a, ln in zip(alphs, lens):
+            # use the high codes of the larger alphabet: they do not exist in the smaller one
+            strs.append("".join(rng.choice(a[-6:] if rng.random() < 0.6 else a) for _ in range(ln)))
+        ops = [f"setm {'|'.join(alphs)} {_seqs(strs)} {_tr(cols)}", "symbols", "strings", "codes"]
+        ops += rng.sample(["ident all", "ident nt", "ident short", "pident all", "rmgaps", "termgaps", "rmterm"], 3)
+        yield {"kind": "trace/mixed", "ops": ops, "alph": alphs[0], "alphs": alphs, "seqs": strs, "trace": cols, "style": style, "valid": True}
+
+
+def gapchar_cases(rng, n_cases):
+    """FASTA alignment text in which some gaps are written with 1-3 additional gap characters"""
+    for _ in range(n_cases):
+        stype = rng.choice(["nuc", "prot"])
+        sym = NUC if stype == "nuc" else PROT20
+        n = rng.choice([2, 2, 3])
+        cols, lens, _ = _rand_trace(rng, n, "global")
+        if not cols:
+            cols, lens = [[0] * n], [1] * n
+        seqs = [_rand_seq(rng, sym, ln) for ln in lens]
+        plain = ["".join("-" if c[k] < 0 else seqs[k][c[k]] for c in cols) for k in range(n)]
+        chars = "".join(rng.sample(GAPCHARS, rng.choice([1, 2, 2, 3])))
+        subst = ["".join((rng.choice(chars) if (ch == "-" and rng.random() < 0.7) else ch) for ch in row) for row in plain]
+        if rng.random() < 0.1:
+            chars = "-"      # no additional gap character at all
+            subst = list(plain)
+        if any(x == "_" for x in subst):
+            continue         # `_` alone means the empty string in the protocol
+        import itertools as _it
+        orders = ["".join(p) for p in _it.permutations(chars)]
+        ops = [f"fastagaps {o} {_seqs(subst)}" for o in orders]
+        yield {"kind": "fastagaps", "ops": ops, "stype": stype, "plain": plain, "subst": subst, "chars": chars}
+
+
 def cases(rng, tier):
     q = tier == "quick"
+    yield from mixed_cases(rng, 150 if q else 2500)
+    yield from gapchar_cases(rng, 120 if q else 2000)
     yield from big_cases(rng, 120 if q else 2000)
     yield from trace_cases(rng, 2000 if q else 30000)
     yield from string_cases(rng, 100 if q else 1500)
@@ -498,15 +549,19 @@ def _mkseq(alph, s):
     import biotite.sequence as seq
     if alph == NUC:
         return seq.NucleotideSequence(s)
+    if alph == AMB:
+        return seq.NucleotideSequence(s, ambiguous=True)
     if alph == PROT:
         return seq.ProteinSequence(s)
     return seq.GeneralSequence(seq.Alphabet(list(alph)), list(s))
 
 
 def _mkali(alph, strs, cols):
+    """alph: one alphabet string for all rows, or a list with one per row"""
     import numpy as np
     from biotite.sequence.align import Alignment
-    seqs = [_mkseq(alph, s) for s in strs]
+    alphs = alph if isinstance(alph, list) else [alph] * len(strs)
+    seqs = [_mkseq(a, s) for a, s in zip(alphs, strs)]
     if len(cols):
         trace = np.array(cols, dtype=int)
         if trace.ndim != 2:
@@ -514,6 +569,21 @@ def _mkali(alph, strs, cols):
     else:
         trace = np.zeros((0, len(strs)), dtype=int)
     return Alignment(seqs, trace)
+
+
+def _read_gapped(stype, rows, chars):
+    """FASTA text with the given gapped rows -> FastaFile -> get_alignment(additional_gap_chars=chars)"""
+    import io
+    import warnings
+
+    import biotite.sequence as seq
+    import biotite.sequence.io.fasta as fasta
+    text = "".join(f">s{i}\n{r}\n" for i, r in enumerate(rows))
+    ff = fasta.FastaFile.read(io.StringIO(text))
+    with warnings.catch_warnings():
+        warnings.simplefilter("ignore")
+        return fasta.get_alignment(ff, additional_gap_chars=chars,
+                                   seq_type=seq.NucleotideSequence if stype == "nuc" else seq.ProteinSequence)
 
 
 _BIG_ALPH = {}
@@ -601,6 +671,20 @@ def run_impl(case):
                 ali = _mkali(alph, _parse_strs(w[2]), _parse_trace(w[3]))
                 return "ok"
             out.append(_fmt(f_set))
+        elif w[0] == "setm":
+            alph = None
+
+            def f_setm():
+                nonlocal ali
+                ali = None
+                ali = _mkali(w[1].split("|"), _parse_strs(w[2]), _parse_trace(w[3]))
+                return "ok"
+            out.append(_fmt(f_setm))
+        elif w[0] == "fastagaps":
+            def f_fg():
+                back = _read_gapped(case["stype"], _parse_strs(w[2]), tuple(c for c in w[1] if c != "-"))
+                return "ok " + _seqs([str(x) for x in back.sequences]) + " | " + _tr(back.trace.tolist())
+            out.append(_fmt(f_fg))
         elif w[0] == "setc":
             alph = None
 
@@ -852,6 +936,8 @@ def oracle(case):
         return _oracle_trace(case)
     if kind.startswith("bigalph/"):
         return _oracle_big(case)
+    if kind == "fastagaps":
+        return _oracle_gapchars(case)
     if kind.startswith("msa/"):
         return _oracle_msa(case)
     if kind == "fromstrings":
@@ -859,6 +945,28 @@ def oracle(case):
     if kind == "cigar_r":
         return _oracle_cigar_read(case)
     return []
+
+
+def _oracle_gapchars(case):
+    """reading a text whose gaps are written with additional gap characters = reading the plain '-' text, in every order"""
+    import itertools as _it
+    v = []
+    try:
+        ref = _read_gapped(case["stype"], case["plain"], ())
+    except Exception:
+        return []
+    want = ([str(x) for x in ref.sequences], ref.trace.tolist())
+    chars = [c for c in case["chars"] if c != "-"]
+    for perm in _it.permutations(chars):
+        try:
+            got = _read_gapped(case["stype"], case["subst"], tuple(perm))
+        except Exception as e:  # noqa: BLE001
+            v.append((f"C11/fasta/gap-chars/rejected/{len(chars)}-chars", f"{case['subst']} additional_gap_chars={perm}: {type(e).__name__}: {e}"))
+            continue
+        if ([str(x) for x in got.sequences], got.trace.tolist()) != want:
+            v.append((f"C11/fasta/gap-chars/{len(chars)}-chars", f"{case['subst']} additional_gap_chars={perm} -> {[str(x) for x in got.sequences]} "
+                      f"{got.trace.tolist()}, plain text gives {want}"))
+    return v
 
 
 def _oracle_big(case):
@@ -964,8 +1072,10 @@ def _oracle_trace(case):
     alph, strs, cols = case["alph"], case["seqs"], case["trace"]
     n = len(strs)
     v = []
-    ali = _mkali(alph, strs, cols)
-    seq_codes = [[alph.index(ch) for ch in s] for s in strs]
+    alphs = case.get("alphs") or [alph] * n
+    mixed = len(set(alphs)) > 1
+    ali = _mkali(list(alphs), strs, cols)
+    seq_codes = [[alphs[k].index(ch) for ch in s] for k, s in enumerate(strs)]
     ncol = len(cols)
     renum = _renumber(cols)
     covered = [[c[k] for c in cols if c[k] >= 0] for k in range(n)]
@@ -983,12 +1093,15 @@ def _oracle_trace(case):
     exp_codes = [[-1 if c[k] < 0 else seq_codes[k][c[k]] for c in cols] for k in range(n)]
     if codes != exp_codes:
         v.append(("C11/codes/matrix", f"{cols} {strs} -> {codes}"))
-    syms = align.get_symbols(ali)
+    try:
+        syms = [list(r) for r in align.get_symbols(ali)]
+    except Exception as e:  # noqa: BLE001
+        syms = type(e).__name__
     exp_syms = [[None if c[k] < 0 else strs[k][c[k]] for c in cols] for k in range(n)]
-    if [list(r) for r in syms] != exp_syms:
-        v.append(("C11/symbols/matrix", f"{cols} {strs} -> {syms}"))
+    if syms != exp_syms:
+        v.append(("C11/symbols/matrix" + ("/mixed-alphabets" if mixed else ""), f"{cols} {strs} {alphs if mixed else ''} -> {syms}"))
     # --- FASTA
-    if alph in (NUC, PROT) and n >= 2:
+    if alph in (NUC, PROT) and n >= 2 and not mixed:
         import io
         ff = fasta.FastaFile()
         fasta.set_alignment(ff, ali, [f"seq{i}" for i in range(n)])
@@ -1091,6 +1204,8 @@ def _oracle_trace(case):
         if int(got) != exp:
             v.append(("C11/helpers/score", f"{cols} {strs} gap=({go},{ge}) tp={tp} -> {got}, expected {exp}"))
     # --- CIGAR: every option combination on every (reference, segment) pair that is a pairwise trace
+    if mixed:
+        return v        # '='/'X' compare codes of different alphabets there; not part of the mixed stream
     for ri, si in ([(0, 1), (1, 0)] if n == 2 else [(0, 1), (n - 1, 0)]):
         pair = [[c[ri], c[si]] for c in cols]
         if any(c[0] < 0 and c[1] < 0 for c in pair) or not any(c[1] >= 0 for c in pair):
